@@ -110,6 +110,50 @@ static inline void silf_ranges(const Bytes &t, std::vector<Range> &out) {
     }
 }
 
+
+// ---------------------------------------------------------------------------------------------- Silf bytecode walker
+struct PassInfo { size_t head; size_t rc_lo, rc_hi, ac_lo, ac_hi; };      // absolute offsets in the Silf table
+static inline void silf_passes(const Bytes &t, std::vector<PassInfo> &out) {
+    out.clear();
+    std::vector<Range> rg; silf_ranges(t, rg);
+    if (t.size() < 12) return;
+    u32 ver = be32(&t[0]);
+    if (ver >= 0x00050000 && (be32(&t[4]) >> 27) != 0) return;   // compressed
+    size_t p = 4; if (ver >= 0x00030000) p += 4;
+    if (p + 4 > t.size()) return;
+    unsigned nsub = be16(&t[p]); p += 4;
+    for (unsigned s = 0; s < nsub && p + 4 <= t.size(); ++s, p += 4) {
+        size_t so = be32(&t[p]);
+        for (auto &r : rg) {
+            if (strcmp(r.what, "pass-head") != 0 || r.lo < so) continue;
+            size_t po = r.lo; if (po + 40 > t.size()) continue;
+            size_t rc = so + be32(&t[po + 12]), ac = so + be32(&t[po + 16]);
+            // the pass ends where the next structure begins: take the next pass head or the table end
+            size_t pe = t.size(); for (auto &q : rg) if (!strcmp(q.what, "pass-head") && q.lo > po && q.lo < pe) pe = q.lo;
+            if (rc > ac || ac > pe || rc < po) continue;
+            out.push_back({po, rc, ac, ac, pe});
+        }
+        break;      // first subtable only (every corpus font has one)
+    }
+}
+// parameter bytes per opcode (-1: variable, ASSOC), from the on-disk opcode numbering
+static inline int opcode_params(unsigned op) {
+    static const signed char P[] = {0, 1,1,2,2,4, 0,0,0,0,0,0,0,0,0, 0,0,0,0,0,0,0,0,0,0, 0,1,0,1,3,1,0,0,-1,2, 1,1,1,1,2,2,2,3,2, 2,3,3, 3, 0,0,0, 2,2,2,1,0,5,0,0,2,3,3,0,0,0,4,2};
+    return op < sizeof P ? P[op] : -2;
+}
+struct Insn { size_t off; unsigned op; int plen; };
+static inline void decode_code(const Bytes &t, size_t lo, size_t hi, std::vector<Insn> &out) {
+    out.clear();
+    size_t i = lo;
+    while (i < hi && i < t.size()) {
+        unsigned op = t[i]; int pl = opcode_params(op);
+        if (pl == -2) break;
+        if (pl == -1) { if (i + 1 >= hi) break; pl = 1 + t[i + 1]; }
+        if (i + 1 + size_t(pl) > hi) break;
+        out.push_back({i, op, pl}); i += 1 + size_t(pl);
+    }
+}
+
 static inline void table_ranges(u32 tag, const Bytes &t, std::vector<Range> &out) {
     out.clear();
     if (t.empty()) return;
